@@ -81,6 +81,46 @@ void s2s(Rng& rng)
     }
 }
 
+// the rounding tag in the representation: scaled_integer<rounding_integer<S, Tag>, power<ES>> converted to
+// scaled_integer<rounding_integer<D, Tag>, power<ED>> (scale<ES - ED> of a rounding_integer = tagged division)
+template<class Tag, class S, int ES, class D, int ED>
+void w2w(Rng& rng)
+{
+    std::string mode = TagN<Tag>::name();
+    using A = scaled_integer<rounding_integer<S, Tag>, power<ES>>;
+    using B = scaled_integer<rounding_integer<D, Tag>, power<ED>>;
+    std::vector<S> sv;
+    if constexpr (sizeof(S) <= 2)
+        sv = all_vals<S>();
+    else {
+        sv = vals<S>(rng, 40 * scale_from_env(), sizeof(S) > 4 ? 5 : 2);
+        if constexpr (ED > ES && ED - ES < 62) {
+            constexpr int k = ED - ES;
+            for (int i = 0; i < 60; ++i) {
+                I q = I(rng.next() % 2001) - 1000;
+                if (i % 4 == 0) q = (I(std::numeric_limits<S>::max()) >> k) - (i % 3);
+                if (i % 4 == 1) q = (I(std::numeric_limits<S>::lowest()) >> k) + (i % 3);
+                for (int d = -1; d <= 1; ++d) {
+                    I t = (q << k) + (I(1) << (k - 1)) + d;
+                    if (t >= I(std::numeric_limits<S>::lowest()) && t <= I(std::numeric_limits<S>::max())) push_unique(sv, S(t));
+                }
+            }
+            // the top and bottom 2^k values of the source range
+            for (int d = 0; d < (1 << (k < 5 ? k : 5)); ++d) {
+                push_unique(sv, S(std::numeric_limits<S>::max() - S(d)));
+                push_unique(sv, S(std::numeric_limits<S>::lowest() + S(d)));
+            }
+        }
+    }
+    for (S s : sv) {
+        A a = _impl::from_rep<A>(_impl::from_rep<rounding_integer<S, Tag>>(s));
+        printf("C09 w2w %s %s %d %s %d ", mode.c_str(), tn<S>().c_str(), ES, tn<D>().c_str(), ED);
+        prv(s);
+        fputs(" => ", stdout);
+        VH_RUN((static_cast<B>(a)), print_num)
+    }
+}
+
 template<class Tag, class F, class D, int ED>
 void f2s(Rng& rng)
 {
